@@ -489,6 +489,8 @@ impl GovModel {
         }
         let mut masks = BTreeSet::new();
         let mut open = false;
+        // an allow that exists only if an unspecified upstream question is answered "yes"
+        let mut maybe = false;
         if who == 0 {
             masks.insert(false);
             open = true;
@@ -505,7 +507,11 @@ impl GovModel {
                 if !f.holding {
                     match self.decide_at(delegator, 2, perm, &r, depth + 1, x) {
                         Dec::Allow { .. } => {}
-                        Dec::GateUnspecified => gate_unspecified = true,
+                        Dec::GateUnspecified => {
+                            // allowed or not depending on what the documentation leaves open
+                            maybe = true;
+                            continue;
+                        }
                         Dec::Deny => continue,
                     }
                 }
@@ -520,7 +526,7 @@ impl GovModel {
             }
         }
         if masks.is_empty() {
-            return Dec::Deny;
+            return if maybe { Dec::GateUnspecified } else { Dec::Deny };
         }
         if gate_unspecified {
             return Dec::GateUnspecified;
